@@ -151,7 +151,7 @@ def _gap_sources(fn) -> List[Tuple[str, ast.AST, ast.AST]]:
     ('series', name, expr) for a local Series zipped with the rows"""
     out = []
     for n in walk_no_nested(fn.node):
-        if isinstance(n, ast.Assign) and len(n.targets) == 1 and any(isinstance(x, ast.Call) and call_name(x) == "shift" for x in ast.walk(n.value)):
+        if isinstance(n, ast.Assign) and len(n.targets) == 1 and any(isinstance(x, ast.Call) and call_name(x) in ("shift", "diff") for x in ast.walk(n.value)):
             t = n.targets[0]
             if isinstance(t, ast.Subscript) and isinstance(t.slice, ast.Constant) and isinstance(t.value, ast.Name):
                 out.append(("column", t.slice.value, n))
